@@ -156,7 +156,7 @@ Ltac brk :=
 Lemma execute_vote_refused_when_executed fx s :
   s_executed s = true -> fst (execute_vote fx s) = s /\ snd (execute_vote fx s) <> OK.
 Proof.
-  intros He. unfold execute_vote. rewrite He.
+  intros He. unfold execute_vote, execute_vote_gen. rewrite He.
   destruct ((s_status s =? Prevote) || (s_status s =? Failed)); [split; [reflexivity | discriminate]|].
   destruct (negb ((if negb (s_result s =? 0) && (s_end s <? s_now s) then Resolved else s_status s) =? Resolved));
     split; try reflexivity; discriminate.
@@ -186,10 +186,10 @@ Theorem execute_vote_amounts fx s s' :
   /\ s_burn s - 1 <= burnt + s_reward s' <= s_burn s
   /\ s_esc s - s_esc s' = burnt + (if is_invalid (s_result s) then s_slash s
                                    else if is_support (s_result s) then 0
-                                   else s_slash s + (s_slash s - s_burn s))
+                                   else s_slash s + (s_feetotal s - s_burn s))
   /\ 0 <= s_esc s' /\ s_liq s' = s_liq s /\ s_dust s' = s_dust s /\ s_payers s' = s_payers s.
 Proof.
-  intros Hb. unfold execute_vote.
+  intros Hb. unfold execute_vote, execute_vote_gen, repo_fix_F12.
   destruct ((s_status s =? Prevote) || (s_status s =? Failed)); [intros H; inversion H|].
   set (status := if negb (s_result s =? 0) && (s_end s <? s_now s) then Resolved else s_status s).
   destruct (status =? Resolved) eqn:Est; cbn [negb]; [|intros H; inversion H]. apply Z.eqb_eq in Est.
@@ -217,7 +217,7 @@ Proof.
       destruct Hnov as [[Hn Hz]|[Hn Hz]]; rewrite Hn in *; rewrite ?Hh in *;
         repeat split; try reflexivity; try lia; try (intros; exfalso; lia); try (intros; split; lia).
     + destruct (is_against (s_result s)) eqn:Ea; [|intros H; inversion H].
-      destruct (return_slashed _ (s_slash s + (s_slash s - s_burn s))) as [s2 e] eqn:Ers.
+      destruct (return_slashed _ (s_slash s + (s_feetotal s - s_burn s))) as [s2 e] eqn:Ers.
       destruct e; try (intros H; inversion H; fail).
       apply return_slashed_ok in Ers. cbn in Ers. destruct Ers as (R1 & R2 & R3 & R4 & R5 & R6 & R7 & R8 & R9 & R10 & R11).
       intros H; inversion H; subst s'; cbn. rewrite R1, R2, R3, R6, R7.
@@ -312,7 +312,7 @@ Qed.
 
 Lemma execute_vote_payers fx s : s_payers (fst (execute_vote fx s)) = s_payers s.
 Proof.
-  unfold execute_vote.
+  unfold execute_vote, execute_vote_gen.
   destruct ((s_status s =? Prevote) || (s_status s =? Failed)); [reflexivity|].
   destruct (negb _); [reflexivity|]. destruct (s_executed s); [reflexivity|].
   destruct (s_result s =? 0); [reflexivity|]. destruct (s_esc s <? _); [reflexivity|].
@@ -370,7 +370,7 @@ Proof.
   - exact Habs.
   - unfold tally. destruct ((s_id s =? 0) || s_executed s || negb (tally_allowed (s_status s) status)); exact Habs.
   - unfold set_votes. destruct (s_executed s); exact Habs.
-  - unfold exec_block. destruct (negb (s_id s =? 0) && s_pending s && _); [rewrite execute_vote_payers|]; exact Habs.
+  - unfold exec_block, exec_block_gen. fold (execute_vote (fixc v) s). destruct (negb (s_id s =? 0) && s_pending s && _); [rewrite execute_vote_payers|]; exact Habs.
   - destruct ((s_id s =? 0) || negb (id0 =? s_id s)); [|rewrite execute_vote_payers]; exact Habs.
   - apply withdraw_payers_absent; exact Habs.
   - rewrite claim_payers; exact Habs.
@@ -458,7 +458,7 @@ Proof.
   - exact Hs.
   - unfold tally. rewrite He. rewrite orb_true_r. exact Hs.
   - unfold set_votes. rewrite He. exact Hs.
-  - unfold exec_block. destruct (negb (s_id s =? 0) && s_pending s && _); [rewrite settled_execute by exact Hs|]; exact Hs.
+  - unfold exec_block, exec_block_gen. fold (execute_vote (fixc v) s). destruct (negb (s_id s =? 0) && s_pending s && _); [rewrite settled_execute by exact Hs|]; exact Hs.
   - destruct ((s_id s =? 0) || negb (id =? s_id s)); [|rewrite settled_execute by exact Hs]; exact Hs.
   - (* withdraw: dispute fields untouched *)
     unfold withdraw.
@@ -515,7 +515,7 @@ Proof.
   intros Hb Hid Hsl He. pose proof (execute_vote_amounts true s s' Hb He) as H. cbn zeta in H.
   destruct H as (_ & Hex & _ & Hst & _).
   assert (Hkeep : s_id s' = s_id s /\ s_slash s' = s_slash s /\ s_feetotal s' = s_feetotal s).
-  { revert He. unfold execute_vote.
+  { revert He. unfold execute_vote, execute_vote_gen.
     destruct ((s_status s =? Prevote) || (s_status s =? Failed)); [intros H; inversion H|].
     destruct (negb _); [intros H; inversion H|]. destruct (s_executed s); [intros H; inversion H|].
     destruct (s_result s =? 0); [intros H; inversion H|]. destruct (s_esc s <? _); [intros H; inversion H|].
@@ -586,9 +586,17 @@ Definition st_r5 : st :=
   ST 10 5 150000 (7500 + 15000 + 30000 + 60000 + 120000) 375000 0 Resolved false true 2 false 5 5 [1;2;3;4;5] [] None snap
      [RD 5 None []] 0 525000 0 [0;0;0] [0;0;0].
 Lemma F12_witness :
-  snd (exec_block true st_r6) = EOther /\ s_slash st_r6 + (s_slash st_r6 - s_burn st_r6) < 0
-  /\ (let s := fst (exec_block true st_r5) in
+  snd (exec_block_gen true false st_r6) = EOther /\ s_slash st_r6 + (s_slash st_r6 - s_burn st_r6) < 0
+  /\ (let s := fst (exec_block_gen true false st_r5) in
       s_esc st_r5 - s_esc s - (s_burned s - s_burned st_r5) = 67500 /\ getz (s_stk s) 0 - getz (s_stk st_r5) 0 = 150000).
+Proof. vm_compute. repeat split; reflexivity. Qed.
+(* repaired (as in /repo now): the sixth round executes, the escrow pays burn + stake + fees - burn amount and is empty;
+   in the fifth round the backers get 150000 + 225000 - 232500 = 292500... precisely stake + fee total - burn amount *)
+Lemma F12_repaired :
+  (let s := fst (exec_block true st_r6) in
+   snd (exec_block true st_r6) = OK /\ s_esc s = 0 /\ getz (s_stk s) 0 - getz (s_stk st_r6) 0 = 150000 + (525000 - s_burn st_r6))
+  /\ (let s := fst (exec_block true st_r5) in
+      snd (exec_block true st_r5) = OK /\ s_esc s = 0 /\ getz (s_stk s) 0 - getz (s_stk st_r5) 0 = 150000 + (375000 - s_burn st_r5)).
 Proof. vm_compute. repeat split; reflexivity. Qed.
 
 (* F23: two payers from stake: the first refund pays both trackers' origins and removes the tracker *)
